@@ -78,7 +78,10 @@ def sign_matched(q):
     starts = np.array(q["starts"])
     for pipeline, runner in (("fast", impl.run_fast), ("full", impl.run_full)):
         try:
-            outs = runner(frame, pattern, starts, b=q["b"])
+            # (crop buffers as the library allocates them for this frame dtype: float32 cannot tell neighbouring int32 / int64 counts
+            # apart -- float32 buffers for such frames are a choice of the caller, not of the code under test)
+            kw_ = {"buf_dtype": np.result_type(frame.dtype, np.float32)} if pipeline == "fast" else {}
+            outs = runner(frame, pattern, starts, b=q["b"], **kw_)
         except Exception as e:
             msgs.append(f"{pipeline} raised {type(e).__name__}: {e}")
             continue
